@@ -79,6 +79,15 @@ Inductive case :=
    read it, TTLs of the synthesised AAAAs, TTLs of the alias records in the reply *)
 | CDns64 (has_soa : bool) (neg : piece) (minimum : Z) (addrs via : list piece) (t0 t1 : Z)
          (bobs : option (option Z)) (obs : list Z) (cobs : list Z)
+(* the denial rung (RFC 8198 proof index, or the subtree cut recorded from it)
+   through the whole pipeline: deadline [d] of what the rung holds, deadline
+   [dspec] of the denial the served answer was composed from (= d unless the
+   answer is a hit on an alias entry re-cached from an earlier denial), lease
+   of the alias answer when it was fetched in this query, the alias entry when
+   the answer is a hit on it, bracket, TTLs that came out of the cache, request
+   bound afterwards (where readable), (stored, ttl, cut) of entries admitted *)
+| CProofTree (d dspec : Z) (lease : option Z) (ahit : option entry) (t0 t1 : Z) (ttls : list Z)
+             (bobs : option (option Z)) (adm : list (Z * Z * option Z))
 (* ReplaceIfCurrent racing SetFromResponse*/Purge on one store, any order *)
 | CCas (ops : list cop)
 (* prefetch through the real queue: claimed entry, refresh inputs, what the
@@ -510,6 +519,24 @@ Definition check_case (c : case) : bool :=
       (* the alias chain is copied with its own TTLs lowered to the synthesised one *)
       && list_z_eqb cobs (map (fun v => let t := piece_ttl v t1 in if ttl <? t then ttl else t) via)
       && match bobs with Some b => oz_eqb b (dns64_bound None consulted) | None => true end
+  | CProofTree d dspec lease ahit t0 t1 ttls bobs adm =>
+      match ahit with
+      | Some e =>
+          (* a hit on the cached alias entry: every record at its shown TTL, the tree bound to its end *)
+          forallb (fun x => x =? shown_ttl e t1) ttls
+          && match bobs with Some b => oz_eqb b (Some (bound_entry e)) | None => true end
+          && match adm with [] => true | _ => false end
+      | None =>
+          (* the rung answers like a cut: (d - now)/1 s on every record, folds d; an alias
+             fetched in the same tree folds its lease; what is admitted carries the fold *)
+          let b := denial_rung_bound None d lease in
+          match cut_serve d t1 with
+          | Some t => forallb (fun x => x =? t) ttls
+          | None => false
+          end
+          && match bobs with Some o => oz_eqb o b | None => true end
+          && forallb (fun a => oz_eqb (snd a) b) adm
+      end
   | CCas ops => cas_replay [] 1%N ops
   | CPrefetch claimed current cls rrs cut w0 w1 t0 t1 replaced after_id after =>
       let ok := (negb (current =? 0)%N) && (current =? claimed)%N && admitted_class cls in
@@ -606,6 +633,16 @@ Definition spec_case (c : case) : bool :=
                                              | PHit e => (t0 <? entry_end e) && (x * second <=? entry_end e - t0)
                                              | PFresh t _ => x <=? t
                                              end) via) cobs
+  | CProofTree d dspec lease ahit t0 t1 ttls bobs adm =>
+      (* nothing that came out of the cache outlives the denial it was composed from;
+         the tree is bound by it; what is re-cached ends with it *)
+      forallb (fun x => (0 <=? x) && (t0 <? dspec) && (x * second <=? dspec - t0)) ttls
+      && match bobs with
+         | Some (Some b) => b <=? dspec
+         | Some None => match ttls with [] => true | _ => false end
+         | None => true
+         end
+      && forallb (fun a => let '(s, t, c) := a in spec_end s t c <=? d) adm
   | CCas ops => cas_spec [] ops
   | CPrefetch claimed current cls rrs cut w0 w1 t0 t1 replaced after_id after =>
       (* a refresh that lost the race leaves the newer entry in place; one that
